@@ -310,5 +310,6 @@ def _mk_args_stream(shape):
                     canaries=[("chunks written to the leading slots", "zip(stream_indices, stream_args)", "enumerate(stream_args)")] if shape[0] != "S" or "xS" in shape else [])
 
 
-for _shape in ("xS", "Sx", "xSy".replace("y", "x"), "SxS", "xSS"):
+from contracts import thorough as _thorough      # noqa: E402
+for _shape in ("xS", "Sx", "xSx", "SxS", "xSS") + (("xxS", "SSS", "SxxS", "xSxSx") if _thorough() else ()):
     CONTRACTS.append(_mk_args_stream(_shape))
